@@ -40,6 +40,8 @@ type traceCtl struct {
 	txnSeq int
 	// onCommit, if set, is called after every successful commit of a transaction
 	onCommit func()
+	// onSet, if set, is called after every completed write made outside a transaction
+	onSet func(k, v []byte)
 }
 
 func (c *traceCtl) arm(failAt int, keep bool) {
@@ -122,7 +124,11 @@ func (s *tstore) Set(ctx context.Context, k, v []byte) error {
 		return e
 	}
 	s.c.result(i, v, true)
-	return s.TxnStore.Set(ctx, k, v)
+	err := s.TxnStore.Set(ctx, k, v)
+	if err == nil && s.c.onSet != nil {
+		s.c.onSet(k, v)
+	}
+	return err
 }
 func (s *tstore) Delete(ctx context.Context, k []byte) error {
 	if _, e := s.c.op(0, "del", k); e != nil {
